@@ -1,0 +1,64 @@
+// Copyright 2020-2025 Buf Technologies, Inc.
+//
+// Licensed under the Apache License, Version 2.0 (the "License");
+// you may not use this file except in compliance with the License.
+// You may obtain a copy of the License at
+//
+//      http://www.apache.org/licenses/LICENSE-2.0
+//
+// Unless required by applicable law or agreed to in writing, software
+// distributed under the License is distributed on an "AS IS" BASIS,
+// WITHOUT WARRANTIES OR CONDITIONS OF ANY KIND, either express or implied.
+// See the License for the specific language governing permissions and
+// limitations under the License.
+
+//go:build verif
+
+package format
+
+// Contracts for the gocv verifier (see /verif/DESIGN.md), author ca-r4f. Comment-only.
+//
+// C20 "a different non-zero status for operational errors": the output side of `buf format -o`. A failure to create the
+// output directory / to write a formatted file must come back as an error (run returns it, so the status is not 0).
+//
+// createDirIfNotExists: the directory is created only when os.Stat says it does not exist, nothing but dirPath is created,
+// and the result is an error exactly when that creation failed (an existing directory is never an error).
+//@ func createDirIfNotExists(dirPath) (err)
+//@   property C20
+//@   modifies ghost.fail, ghost.wfail, ghost.j_osStat, ghost.j_osWrite
+//@   ensures mkdir-failure-reported: !old(ghost.wfail) ==> ((err != nil) <==> ghost.wfail)
+//@   ensures read-flag: !old(ghost.fail) ==> ((err != nil) <==> ghost.fail)
+//@   ensures creates-only-the-directory: ghost.j_osWrite == old(ghost.j_osWrite) || ghost.j_osWrite == add(old(ghost.j_osWrite), dirPath)
+//@   ensures looked-before-creating: dirPath in ghost.j_osStat
+//@   assert before "if err := os.MkdirAll(dirPath, 0755)" only-when-missing: os.IsNotExist(err)
+//@   canary ensures err == nil
+//@   canary ensures err != nil
+//
+// writeToDir: every failure on the way (directory creation, opening the bucket, any put of the copy) is returned.
+//@ func writeToDir(ctx, disableSymlinks, formattedReadBucket, dirRef) (err)
+//@   property C20
+//@   modifies heap, ghost.fail, ghost.wfail, ghost.j_osStat, ghost.j_osWrite, ghost.d2_follow, ghost.v_osRoots, ghost.sinkPaths, ghost.sinkBuckets, ghost.lastPutOptions
+//@   ensures write-failure-reported: ghost.wfail && !old(ghost.wfail) ==> err != nil
+//@   ensures failure-reported: ghost.fail && !old(ghost.fail) ==> err != nil
+//@   canary ensures err != nil
+//
+// writeToProtoFile: every failure (opening the output, reading a formatted file, writing it, CLOSING the output) is returned.
+//@ func writeToProtoFile(ctx, container, formattedReadBucket, protoFileRef) (retErr)
+//@   property C20
+//@   modifies heap, ghost.fail, ghost.wfail, ghost.sinkPaths, ghost.sinkBuckets, ghost.lastPutOptions
+//@   ensures write-failure-reported: ghost.wfail && !old(ghost.wfail) ==> retErr != nil
+//@   ensures failure-reported: ghost.fail && !old(ghost.fail) ==> retErr != nil
+//@   closure 1 ensures object-failure-reported: ghost.fail && !old(ghost.fail) ==> err != nil
+//@   closure 1 ensures object-write-failure-reported: ghost.wfail && !old(ghost.wfail) ==> err != nil
+//@   canary ensures retErr != nil
+//
+// validateNoIncludePackageFiles: only a proto file reference that asks for include_package_files is refused; the error is an
+// invalid-argument error (never status 0).
+//@ func validateNoIncludePackageFiles(dirOrProtoFileRef) (err)
+//@   property C20
+//@   modifies heap
+//@   ensures refused-only-with-the-flag: err != nil ==> cast(buffetch.ProtoFileRef, dirOrProtoFileRef).IncludePackageFiles()
+//@   ensures refused-exactly-for-flagged-proto-file: (err != nil) <==> (dirOrProtoFileRef != nil && implements(typeOf(dirOrProtoFileRef), typeId(buffetch.ProtoFileRef)) && cast(buffetch.ProtoFileRef, dirOrProtoFileRef).IncludePackageFiles())
+//@   ensures refusal-is-invalid-argument: err != nil ==> typeOf(err) == typeId(*appcmd.invalidArgumentError)
+//@   canary ensures err == nil
+//@   canary ensures err != nil
